@@ -5,6 +5,7 @@
 -/
 import Nuts.Model.Tx
 import NutsProofs.Lemmas.MergeKV
+import NutsProofs.Lemmas.MergeReads
 namespace NutsProofs.C15
 open Nuts Nuts.Model Nuts.Model.DB
 
@@ -110,6 +111,44 @@ theorem C15_merge_again (s : State) (now now' : Nat) (txids : List Nat) (h : MIn
   intro h2 hl
   obtain ⟨h1, _, h3, _, _⟩ := (merge_spec s now txids h).2 h2 hl
   exact ⟨h1, h3⟩
+
+open NutsProofs.Reopen NutsProofs.KVRefine NutsProofs.Hints NutsProofs.MergeKV in
+/-- **C15 (reads, key+value mode, every history).** Under the hypotheses of `C15_merge_keeps_kv_index`, in
+`HintKeyValAndRAMIdxMode`: after a Merge that succeeded (did not end with the active file unlinked), `Get`,
+`GetAll`, `RangeScan`, `PrefixScan` and `PrefixSearchScan` — every bucket, key, range, prefix, offset, limit,
+match predicate, and every clock value, earlier or later than the one Merge ran at — return records with the
+same value, timestamp, TTL and flag as before it, and fail exactly when they failed before. -/
+theorem C15_merge_keeps_kv_reads (opt0 : Opts) (ops : List Op) (hok : OpsOk (openDB opt0 []).1 ops)
+    (hrec : OpsRecOk ops)
+    (hsz : ∀ x ∈ allRecs (ops.foldl stepOp (openDB opt0 []).1).files, ¬ x.1.size > (ops.foldl stepOp (openDB opt0 []).1).opt.seg)
+    (hm : (ops.foldl stepOp (openDB opt0 []).1).opt.mode = 0)
+    (now : Nat) (txids : List Nat)
+    (h2 : ¬ (ops.foldl stepOp (openDB opt0 []).1).files.length < 2)
+    (hl : (merge (ops.foldl stepOp (openDB opt0 []).1) now txids).1.activeUnlinked = false) :
+    let s := ops.foldl stepOp (openDB opt0 []).1
+    let s' := (merge s now txids).1
+    (∀ b k t, showO (DB.get s' b k t) = showO (DB.get s b k t)) ∧
+    (∀ b t, showL (getAll s' b t) = showL (getAll s b t)) ∧
+    (∀ b st en t, showL (rangeScan s' b st en t) = showL (rangeScan s b st en t)) ∧
+    (∀ b pre off lim t mt, showL (prefixScan s' b pre off lim t mt) = showL (prefixScan s b pre off lim t mt)) := by
+  intro s s'
+  obtain ⟨_, hmerge⟩ := C15_merge_keeps_kv_index opt0 ops hok hrec hsz now txids
+  obtain ⟨_, hminv', hvis, _, hopt⟩ := hmerge h2 hl
+  -- the invariant before Merge, for the committed entries
+  have hinv : LogInv s := logInv_ops ops _ (logInv_init opt0) hok
+  have hpk : Packed s := packed_ops ops _ (logInv_init opt0) (packed_init opt0) hok
+  have hlog : (allRecs s.files).map (·.1) = logOf ops := by
+    have h0 : (allRecs (openDB opt0 []).1.files).map (·.1) = [] := by simp [openDB, fileEnsure, allRecs]
+    have := log_of_ops ops _ (logInv_init opt0) hok
+    rw [h0, List.nil_append] at this
+    exact this
+  have hL : ∀ x ∈ allRecs s.files, RecOk x.1 := by
+    intro x hx
+    apply logOf_recOk ops hrec
+    rw [← hlog]; exact List.mem_map.mpr ⟨x, hx, rfl⟩
+  have hminv := minv_of_logInv s now hinv hpk hL hsz
+  exact reads_of_visKV s s' hm (by show (merge s now txids).1.opt.mode = 0; rw [hopt]; exact hm) hvis
+    hminv.committedIdx hminv'.committedIdx
 
 instance : DecidableEq (Bytes × (Bytes × Nat × Nat × Nat)) := inferInstance
 instance : DecidableEq (List (Bytes × (Bytes × Nat × Nat × Nat))) := inferInstance
